@@ -75,8 +75,9 @@ def build(case):
             args += ["-w", str(cols)]
         if skip:
             args += ["-s", str(skip)]
-        return fmt, M.enc_max(bits, cols, rows, newsroom, skip), args, M.expected_max(bits, cols, rows, mode), \
-            "max %s %s s%d" % (mode, "newsroom" if newsroom else "hdr5", skip)
+        load = case.get("load", 0x0E00)
+        return fmt, M.enc_max(bits, cols, rows, newsroom, skip, load=load), args, M.expected_max(bits, cols, rows, mode), \
+            "max %s %s s%d%s" % (mode, "newsroom" if newsroom else "hdr5", skip, "" if load == 0x0E00 else " load%04X" % load)
     if fmt == "mge":
         pix = M.rand_pixels(rng, 320, 200, kind)
         rgb = case["rgb"]
@@ -195,6 +196,9 @@ def cases(tier, seed):
             yield c(fmt="max", mode=mode, cols=64, rows=5, kind=kind)
             yield c(fmt="max", mode=mode, cols=32, rows=7, kind=kind, newsroom=True)
             yield c(fmt="max", mode=mode, cols=16, rows=3, kind=kind, skip=5)
+        # the load address of the preamble is any 16-bit value (converters write 0, a SAVEM from high memory something big)
+        for load in (0x0000, 0x0400, 0x0600, 0x7000, 0x8000, 0xC000, 0xFFFF):
+            yield c(fmt="max", mode=mode, cols=256, rows=6, kind="random", load=load)
     # header fields at their boundaries: one-byte Newsroom width (in bytes) and height up to 255, and the 5-byte header's
     # 16-bit length with -r / -w around 128 and 256 rows
     for i, (cols, rows) in enumerate(((8, 127), (8, 128), (16, 129), (8, 200), (8, 255), (8 * 127, 2), (8 * 128, 2), (8 * 255, 1), (8 * 200, 3))):
